@@ -802,4 +802,194 @@ Proof.
   - intros b Hb. apply head_is_best; auto.
 Qed.
 
+(* ================================================================ *)
+(* (3) next-hop-invalid flags follow the reachability reports        *)
+Definition inv_ok (inv : list N) (e : entry) : Prop :=
+  e_inv e = match e_nh e with Some a => memN a inv | None => false end.
+
+Lemma do_insert_in fl d src pid nh tok at_ filtered inv x :
+  In x (d_l (fst (do_insert c fl d src pid nh tok at_ filtered inv))) ->
+  (exists lpid, x = mk_entry src pid lpid nh tok at_ filtered inv) \/ In x (d_l d).
+Proof.
+  destruct (do_insert_l fl d src pid nh tok at_ filtered inv) as [lp ->].
+  intro H. apply insert_sorted_in in H. destruct H as [->|H]; [left; eauto | right].
+  eapply remove_first_in; eauto.
+Qed.
+
+Lemma do_insert_invok fl d src pid nh tok at_ filtered inv :
+  Forall (inv_ok inv) (d_l d) ->
+  Forall (inv_ok inv) (d_l (fst (do_insert c fl d src pid nh tok at_ filtered
+                                   (match nh with Some a => memN a inv | None => false end)))).
+Proof.
+  intro H. rewrite Forall_forall in *. intros x Hx. apply do_insert_in in Hx.
+  destruct Hx as [[lp ->]|Hx]; auto. reflexivity.
+Qed.
+
+Lemma do_remove_in d peer pid x : In x (d_l (fst (fst (do_remove d peer pid)))) -> In x (d_l d).
+Proof.
+  unfold do_remove. destruct (find (same_path peer pid) (d_l d)); cbn [fst]; auto.
+  destruct (remove_first (same_path peer pid) (d_l d)) eqn:E; cbn [fst d_l dest0].
+  - intros [].
+  - rewrite <- E. apply remove_first_in.
+Qed.
+
+Lemma reset_invok fl inv pol peer p d :
+  Forall (inv_ok inv) (d_l d) -> Forall (inv_ok inv) (d_l (fst (do_reset c V fl inv pol peer p d))).
+Proof.
+  unfold do_reset. generalize (filter (fun e => (e_peer e =? peer) && negb (e_stale fl e)) (d_l d)) as snap.
+  intros snap H. change (d_l d) with (d_l (fst (d, @nil req))) in H.
+  revert H. generalize (d, @nil req) as acc. induction snap as [|e0 t IH]; cbn [fold_left]; auto.
+  intros acc H. apply IH. unfold reset_one.
+  destruct (apply_import c pol (e_peer e0) (e_nh e0)) as [filtered nh].
+  pose proof (do_insert_invok fl (fst acc) (esrc e0) (e_pid e0) nh (e_tok e0) (e_attr e0) filtered inv H) as HI.
+  destruct (do_insert c fl (fst acc) (esrc e0) (e_pid e0) nh (e_tok e0) (e_attr e0) filtered _) as [d' ch].
+  cbn [fst] in *. auto.
+Qed.
+
+Definition InvF (s : st) : Prop := forall p, Forall (inv_ok (s_inv s)) (d_l (s_get s p)).
+
+Lemma memN_filter_neq a x l : memN x (filter (fun y => negb (y =? a)) l) = negb (x =? a) && memN x l.
+Proof.
+  unfold memN. induction l as [|y l IH]; cbn [filter existsb].
+  - rewrite andb_false_r. auto.
+  - destruct (y =? a) eqn:E; cbn [negb existsb]; rewrite IH.
+    + apply N.eqb_eq in E. subst. destruct (x =? a) eqn:E2; cbn; auto.
+    + destruct (x =? y) eqn:E2; cbn; auto. apply N.eqb_eq in E2. subst. rewrite E. auto.
+Qed.
+
+Definition inv_after (inv : list N) (a : N) (reachable : bool) : list N :=
+  if reachable then filter (fun x => negb (x =? a)) inv
+  else if memN a inv then inv else a :: inv.
+
+Lemma memN_inv_after inv a r x :
+  memN x (inv_after inv a r) = if x =? a then negb r else memN x inv.
+Proof.
+  unfold inv_after. destruct r.
+  - rewrite memN_filter_neq. destruct (x =? a); auto.
+  - destruct (memN a inv) eqn:E.
+    + destruct (x =? a) eqn:E2; auto. apply N.eqb_eq in E2. subst. auto.
+    + unfold memN. cbn [existsb]. fold (memN x inv). destruct (x =? a); auto.
+Qed.
+
+Lemma validity_invok a r inv d :
+  Forall (inv_ok inv) (d_l d) ->
+  Forall (inv_ok (inv_after inv a r)) (d_l (fst (do_validity a r d))).
+Proof.
+  intro H. unfold do_validity.
+  destruct (existsb (fun e => nh_is a e && negb (Bool.eqb (e_inv e) (negb r))) (d_l d)) eqn:EX;
+    cbn [negb fst d_l].
+  - rewrite Forall_forall in *. intros x Hx. apply in_map_iff in Hx. destruct Hx as [y [<- Hy]].
+    specialize (H y Hy). unfold inv_ok in *. destruct (nh_is a y) eqn:EN.
+    + cbn [set_inv e_inv e_nh]. unfold nh_is in EN. apply optN_eqb_eq in EN. rewrite EN.
+      rewrite memN_inv_after, N.eqb_refl. auto.
+    + rewrite H. destruct (e_nh y) as [b|] eqn:EB; auto. rewrite memN_inv_after.
+      unfold nh_is in EN. rewrite EB in EN. cbn in EN. rewrite EN. auto.
+  - rewrite Forall_forall in *. intros y Hy. specialize (H y Hy). unfold inv_ok in *.
+    destruct (nh_is a y) eqn:EN.
+    + unfold nh_is in EN. pose proof EN as EN'. apply optN_eqb_eq in EN. rewrite EN.
+      rewrite memN_inv_after, N.eqb_refl.
+      assert (HF : nh_is a y && negb (Bool.eqb (e_inv y) (negb r)) = false).
+      { destruct (nh_is a y && negb (Bool.eqb (e_inv y) (negb r))) eqn:EE; auto.
+        assert (existsb (fun e => nh_is a e && negb (Bool.eqb (e_inv e) (negb r))) (d_l d) = true); try congruence.
+        apply existsb_exists. exists y. auto. }
+      unfold nh_is in HF. rewrite EN' in HF. cbn in HF. apply negb_false_iff in HF.
+      apply Bool.eqb_prop in HF. auto.
+    + rewrite H. destruct (e_nh y) as [b|] eqn:EB; auto. rewrite memN_inv_after.
+      unfold nh_is in EN. rewrite EB in EN. cbn in EN. rewrite EN. auto.
+Qed.
+
+Lemma Forall_sub {A} (Q : A -> Prop) l l' : (forall x, In x l' -> In x l) -> Forall Q l -> Forall Q l'.
+Proof. intros HS H. rewrite Forall_forall in *. auto. Qed.
+
+Lemma InvF_purge s sel : InvF s -> InvF (fst (purge_pass c V s sel)).
+Proof.
+  intros H p. unfold purge_pass, sweep. cbn [fst s_get s_inv].
+  pose proof (do_purge_l sel (s_get s p)) as HL.
+  destruct (do_purge sel (s_get s p)) as [[d' ch] nhl]. cbn [fst] in *. rewrite HL.
+  apply Forall_sub with (l := d_l (s_get s p)); [|apply H]. intros x Hx. apply filter_In in Hx. tauto.
+Qed.
+
+Lemma InvF_restale s fl' peer :
+  InvF s ->
+  InvF (fst (sweep s fl' (fun p d => let '(d', ch) := do_restale c fl' peer d in (d', distribute_opt c V fl' p ch)))).
+Proof.
+  intros H p. unfold sweep. cbn [fst s_get s_inv]. specialize (H p).
+  unfold do_restale. destruct (negb (existsb (fun e => e_peer e =? peer) (d_l (s_get s p)))); cbn [fst d_l]; auto.
+  apply Forall_sub with (l := d_l (s_get s p)); [|apply H]. intros x Hx. apply isort_in in Hx. auto.
+Qed.
+
+Lemma step_invF s o : InvF s -> InvF (fst (step c V s o)).
+Proof.
+  intro H. destruct o; cbn [step].
+  - destruct (apply_import c (s_pol s) peer nh) as [filtered nh'].
+    pose proof (do_insert_invok (s_fl s) (s_get s p) (peer, sess) pid nh' tok (attr_of c tok) filtered (s_inv s) (H p)) as HI.
+    destruct (do_insert c (s_fl s) (s_get s p) (peer, sess) pid nh' tok (attr_of c tok) filtered _) as [d' ch].
+    cbn [fst] in *. intro q. cbn [s_get s_inv]. unfold upd. destruct (pfx_eqb q p); auto.
+  - pose proof (do_remove_in (s_get s p) peer pid) as HI.
+    destruct (do_remove (s_get s p) peer pid) as [[d' ch] r]. cbn [fst] in *.
+    intro q. cbn [s_get s_inv]. unfold upd. destruct (pfx_eqb q p); auto.
+    apply Forall_sub with (l := d_l (s_get s p)); [|apply (H p)]. auto.
+  - apply InvF_purge; auto.
+  - apply InvF_restale; auto.
+  - apply InvF_purge; auto.
+  - pose proof (InvF_restale s {| f_stale := f_stale (s_fl s); f_llgr := srcs_of s peer ++ f_llgr (s_fl s) |} peer H) as H1.
+    destruct (sweep s _ _) as [s1 r1]. cbn [fst] in H1.
+    pose proof (InvF_purge s1 (fun e => (e_peer e =? peer) && a_nollgr (e_attr e)) H1) as H2.
+    destruct (purge_pass c V s1 _) as [s2 r2]. cbn [fst] in *. auto.
+  - apply InvF_purge; auto.
+  - unfold sweep. cbn [fst snd s_get s_inv s_keys s_fl s_pol]. intro p. cbn [s_get s_inv].
+    pose proof (validity_invok a reachable (s_inv s) (s_get s p) (H p)) as HV.
+    destruct (do_validity a reachable (s_get s p)) as [d' ch]. cbn [fst] in *. exact HV.
+  - exact H.
+  - intro p. unfold sweep. cbn [fst s_get s_inv]. apply reset_invok. auto.
+Qed.
+
+Lemma step_sinv s o a :
+  memN a (s_inv (fst (step c V s o))) =
+  match o with
+  | NhValidity b r => if a =? b then negb r else memN a (s_inv s)
+  | _ => memN a (s_inv s)
+  end.
+Proof.
+  destruct o; cbn [step]; try reflexivity.
+  - destruct (apply_import c (s_pol s) peer nh) as [filtered nh'].
+    destruct (do_insert c _ _ _ _ _ _ _ _ _) as [d' ch]. reflexivity.
+  - destruct (do_remove (s_get s p) peer pid) as [[d' ch] r]. reflexivity.
+  - unfold sweep. cbn [fst s_inv]. apply (memN_inv_after (s_inv s) a0 reachable a).
+Qed.
+
+Lemma run_invF ops : forall s, InvF s -> InvF (fst (run c V s ops)).
+Proof.
+  induction ops as [|o t IH]; intros s H; cbn [run]; auto.
+  pose proof (step_invF s o H) as H1. destruct (step c V s o) as [s1 r1]. cbn [fst] in H1.
+  specialize (IH s1 H1). destruct (run c V s1 t) as [s2 r2]. auto.
+Qed.
+
+Lemma run_sinv ops a : forall s,
+  memN a (s_inv (fst (run c V s ops))) = unreachable_after ops a (memN a (s_inv s)).
+Proof.
+  induction ops as [|o t IH]; intros s; cbn [run unreachable_after]; auto.
+  pose proof (step_sinv s o a) as H1. destruct (step c V s o) as [s1 r1]. cbn [fst] in H1.
+  specialize (IH s1). destruct (run c V s1 t) as [s2 r2]. cbn [fst] in *. rewrite IH, H1.
+  destruct o; auto. rewrite (N.eqb_sym a0 a). auto.
+Qed.
+
+Theorem C20_unreachable_nexthop_excluded : forall (ops : list op) (p : prefix) (e : entry) (a : N),
+  let s := fst (run c Fixed st0 ops) in
+  let l := d_l (s_get s p) in
+  In e l -> e_nh e = Some a ->
+  (unreachable_after ops a false = true -> ~ In e (selectable l)) /\
+  (unreachable_after ops a false = false -> e_filt e = false -> In e (selectable l)).
+Proof.
+  intros ops p e a. cbn zeta. intros He Hn.
+  assert (HF : InvF (fst (run c V st0 ops))).
+  { apply run_invF. intro q. cbn. constructor. }
+  specialize (HF p). rewrite Forall_forall in HF. specialize (HF e He). unfold inv_ok in HF.
+  rewrite Hn, (run_sinv ops a st0) in HF. cbn [st0 s_inv memN existsb] in HF.
+  unfold selectable. split.
+  - intros HU HI. apply filter_In in HI. destruct HI as [_ HI]. rewrite HF, HU in HI.
+    rewrite andb_false_r in HI. discriminate.
+  - intros HU Hf. apply filter_In. split; auto. rewrite HF, HU, Hf. auto.
+Qed.
+
 End Fib.
